@@ -13,6 +13,11 @@ import (
 
 var BadChecksum = errors.New("Reader failed checksum")
 
+// ErrBlockSizeMismatch is returned (instead of io.EOF) by the reader
+// that Get returns when the data received from the Keep service does
+// not have the size that was expected for the block.
+var ErrBlockSizeMismatch = errors.New("Reader delivered wrong number of bytes")
+
 // HashCheckingReader is an io.ReadCloser that checks the contents
 // read from the underlying io.Reader against the provided hash.
 type HashCheckingReader struct {
@@ -84,4 +89,36 @@ func (hcr HashCheckingReader) Close() (err error) {
 		return BadChecksum
 	}
 	return nil
+}
+
+// sizeCheckingReader wraps a response body that is expected to
+// deliver exactly remain bytes. It passes through at most that many
+// bytes. It returns ErrBlockSizeMismatch instead of io.EOF if the
+// body ends early, and as soon as the body turns out to be longer
+// than expected; after that, every Read returns the same error.
+// (net/http enforces a Content-Length header, but a response without
+// one -- e.g., chunked transfer encoding -- can have any length.)
+type sizeCheckingReader struct {
+	io.ReadCloser
+	remain int64
+	err    error
+}
+
+func (r *sizeCheckingReader) Read(p []byte) (int, error) {
+	if r.err != nil {
+		return 0, r.err
+	}
+	n, err := r.ReadCloser.Read(p)
+	if int64(n) > r.remain {
+		n = int(r.remain)
+		r.remain = 0
+		r.err = ErrBlockSizeMismatch
+		return n, r.err
+	}
+	r.remain -= int64(n)
+	if err == io.EOF && r.remain != 0 {
+		r.err = ErrBlockSizeMismatch
+		err = r.err
+	}
+	return n, err
 }
